@@ -385,7 +385,21 @@ fn run_case(userun: bool, seed: u64, ops: &[Op]) -> String {
                 let cell: Arc<Mutex<Option<Arbiter>>> = Arc::new(Mutex::new(None));
                 let c2 = cell.clone();
                 let made = via == 's' && side.on_sys_thread(Box::new(move || *c2.lock().unwrap() = Some(Arbiter::new())));
-                let arb = if made { cell.lock().unwrap().take().unwrap() } else { Arbiter::new() };
+                let arb = if made {
+                    cell.lock().unwrap().take().unwrap()
+                } else if (seed as usize + pos) % 3 == 0 {
+                    // The other public constructor, with a runtime factory that takes its time, called by a thread that
+                    // holds a stale unpark token (any park-based primitive whose wake-up raced its consumer leaves one;
+                    // `thread::park` may always return spuriously).  The constructor must still return only after the
+                    // new arbiter is registered with the System.
+                    thread::current().unpark();
+                    Arbiter::with_tokio_rt(|| {
+                        thread::sleep(Duration::from_millis(15));
+                        tokio::runtime::Builder::new_current_thread().enable_all().build().unwrap()
+                    })
+                } else {
+                    Arbiter::new()
+                };
                 slots.push(Slot { handle: arb.handle(), owner: Some(arb), joined: false, gate: None, gate_tid: 0 });
                 'u'
             }
